@@ -36,6 +36,8 @@ def run(ctx):
   rule_lcg_table(ctx)
   rule_subsets(ctx)
   rule_u2f(ctx)
+  rule_accum(ctx)
+  ctx.expect("R-C08-ACCUM", 2, "BiasedBaseCheck and CheckCr50U2f")
   # "signatures of other issuers in the same batch keep their own verdict": every signature gets an entry created for it alone (shared with C16)
   from . import c16
   c16.rule_isolated(ctx, T.bodies(ctx.repo), "R-C08-OWN", lambda w: w.startswith("ecdsa_sig_checks:"))
@@ -151,11 +153,10 @@ def rule_window(ctx):
       oka = False
       why = why or "window starts are not driven by range(0, >= len(a), size)"
   ctx.record(R, b.where(), "aligned windows a[i:i+size], b[i:i+size], stride = size", oka, why or "identical slices of a and b, consecutive windows cover every signature")
-  upd = [e for e in b.events if e.kind == "mutate" and e.data["method"] == "update" and isinstance(e.data["target"], ast.Name) and e.data["target"].id == "guesses"]
   brk = [e for e in b.events if e.kind == "break"]
-  okb = bool(upd) and all(e.state.pc and e.state.pc[-1][2] is not None and norm(e.state.pc[-1][2].test) in ("len(a) <= size", "size >= len(a)") for e in brk) and len(brk) >= 1
-  ctx.record(R, b.where(), "guesses accumulated; early break only when one window already holds everything", okb,
-             "guesses.update(...) for every window; break dominated by len(a) <= size" if okb else "guesses are overwritten or the size loop ends early")
+  okb = all(e.state.pc and e.state.pc[-1][2] is not None and norm(e.state.pc[-1][2].test) in ("len(a) <= size", "size >= len(a)") for e in brk) and len(brk) >= 1
+  ctx.record(R, b.where(), "early break only when one window already holds everything", okb,
+             "break dominated by len(a) <= size (accumulation of the guesses: R-C08-ACCUM)" if okb else "the size loop ends early")
   # lcg branch
   lc = [e for e in b.events if e.kind == "call" and e.data["name"].endswith("hidden_number_problem:HiddenNumberProblemForCurve")]
   okl = bool(lc)
@@ -326,3 +327,109 @@ def rule_u2f(ctx):
   upd = [e for e in b.events if e.kind == "mutate" and e.data["method"] == "update" and isinstance(e.data["target"], ast.Name) and e.data["target"].id == "guesses"]
   okw = pair and single and len({id(e.node) for e in upd}) == 2
   ctx.record(R, b.where(), "sliding pair window plus the single-signature attempt", okw, "every adjacent pair and the last signature alone" if okw else "window structure changed")
+
+
+# ------------------------------------------------------------------ ACCUM: guesses of all issuers and windows reach _IssuerDLogs
+GROWERS = ("update", "add", "extend", "append")
+
+
+def rule_accum(ctx, R="R-C08-ACCUM"):
+  """The candidate keys handed to _IssuerDLogs are the union over every issuer (and every window) of the lattice results: inside the per-issuer loop
+  the collection is only ever grown (update / add / |=), never rebound, so what one issuer contributes cannot be lost when the next one is processed;
+  and every lattice call's result is one of the things added."""
+  repo = ctx.repo
+  for b in T.bodies(repo):
+    if not b.where().startswith("ecdsa_sig_checks:"):
+      continue
+    calls = [e for e in b.events if e.kind == "call" and e.data["name"].endswith("ecdsa_sig_checks:_IssuerDLogs")]
+    if not calls:
+      continue
+    w = b.w
+    probs = []
+    n_loops = 0
+    seen = set()
+    for e in calls:
+      g = e.data["args"][0] if e.data["args"] else None
+      if g is None or isinstance(g, Seq):
+        probs.append("_IssuerDLogs is not given the collected guesses")
+        continue
+      ga = as_poly(g).as_atom()
+      while ga is not None and ga.kind in ("list", "set", "sorted", "tuple") and ga.args:
+        ga = as_poly(ga.args[0]).as_atom()
+      gp = Poly.atom(ga) if ga is not None else None
+      # the loop whose exit value this is
+      hit = None
+      for info in w.loop_info.values():
+        for vis in info["visits"]:
+          for nm, sv in vis["after_env"].items():
+            if sv is not None and not isinstance(sv, (Seq, Const, tuple)) and gp is not None and as_poly(sv) == gp:
+              hit = (info, vis, nm)
+      if hit is None:
+        probs.append("the guesses handed to _IssuerDLogs are not collected by a loop over the issuers")
+        continue
+      info, vis, nm = hit
+      if id(vis) in seen:
+        continue
+      seen.add(id(vis))
+      n_loops += 1
+      pre = vis["pre_env"].get(nm)
+      pa = as_poly(pre).as_atom() if pre is not None and not isinstance(pre, (Seq, Const, tuple)) else None
+      empty = (isinstance(pre, Seq) and not pre.items) or (pa is not None and pa.kind in ("set", "setlit", "list", "call") and len([x for x in pa.args if not (isinstance(x, Poly) and x.as_atom() is not None and x.as_atom().kind == "lit")]) == 0)
+      for kind, val, s, since, v2 in info["body_paths"]:
+        if kind not in ("fall", "continue"):
+          probs.append("issuer loop left by %s: later issuers contribute nothing" % kind)
+          continue
+        head = as_poly(v2["head"].env[nm])
+        added = []
+        why = grown_from(w, s.env.get(nm), head, nm, added)
+        if why:
+          probs.append("inside the issuer loop %s: guesses of earlier issuers are discarded" % why)
+          continue
+        # every lattice result computed on this pass is among the things added
+        evs = [w.events[i] for i in s.trace if i >= since]
+        for x in evs:
+          if x.kind == "call" and ("hidden_number_problem:HiddenNumberProblem" in x.data["name"] or x.data["name"].endswith("Cr50U2fGuesses")):
+            if not any(repr(as_poly(x.data["value"])) in repr(as_poly(y)) for y in added if not isinstance(y, Seq)):
+              probs.append("a lattice result is computed but not added to the guesses")
+    if n_loops == 0 and not probs:
+      probs.append("no issuer loop found")
+    ctx.record(R, b.where(), "guesses of every issuer and window are accumulated", not probs, "; ".join(sorted(set(probs))) or
+               "%d issuer loop(s): the collection is only grown inside the loop and every lattice result is added" % n_loops)
+
+
+def grown_from(w, cur, head, nm, added, depth=0):
+  """'' when cur is head grown by update/add/|= only (following inner loops that themselves only grow it); else a reason."""
+  if cur is None or isinstance(cur, (Seq, Const, tuple)):
+    return "the collection is rebound"
+  p = as_poly(cur)
+  if p == head:
+    return ""
+  a = p.as_atom()
+  if a is None:
+    return "the collection is rebound"
+  if a.kind == "mut" and len(a.args) >= 3 and isinstance(a.args[1], Poly) and a.args[1].as_atom() is not None and a.args[1].as_atom().args[0] in GROWERS:
+    added.append(a.args[2])
+    return grown_from(w, a.args[0], head, nm, added, depth)
+  if a.kind == "bor" and any(as_poly(x) == head for x in a.args):
+    added += [x for x in a.args if as_poly(x) != head]
+    return ""
+  if a.kind == "sym" and depth < 4:
+    # exit value of an inner loop?
+    for info in w.loop_info.values():
+      for vis in info["visits"]:
+        sv = vis["after_env"].get(nm)
+        hv = vis["head"].env.get(nm)
+        if (sv is not None and not isinstance(sv, (Seq, Const, tuple)) and as_poly(sv) == p) or \
+           (hv is not None and not isinstance(hv, (Seq, Const, tuple)) and as_poly(hv) == p and as_poly(hv) != head):
+          # exit value or loop-head value of an inner loop: grown from the value before that loop if every pass of it only grows the collection
+          why = grown_from(w, vis["pre_env"].get(nm), head, nm, added, depth + 1)
+          if why:
+            return why
+          for kind, val, s, since, v2 in info["body_paths"]:
+            if v2 is not vis:
+              continue
+            why = grown_from(w, s.env.get(nm), as_poly(v2["head"].env[nm]), nm, added, depth + 1)
+            if why:
+              return why
+          return ""
+  return "the collection is rebound (it is %s at the end of a pass)" % (repr(p)[:80],)
